@@ -95,6 +95,41 @@ theorem handleData_inset (c : Conn) (s : Stream) (off : Int) (b : List Nat) (fin
       · left; exact htr.2.2 x h.1 hx
       · right; omega
 
+/-- **No dangling fast-path buffer after CloseRead** (repaired code, `discardInbufLocked`): `CloseRead`
+empties `inbuf` before the pipe releases its chunks, so a later `Read` never takes the lock-free path
+through a released buffer: it fails (closed / reset) and returns no bytes.  Together with
+`Read` filling `inbuf` only from `Pipe.peek` of the stream's own pipe, `Read` can only return bytes of
+the stream's own pipe window. -/
+theorem closeRead_clears_inbuf (c c' : Conn) (s : Stream) (n : Nat) (hw : s.writeOnly = false) :
+    (closeRead c s).2.inbuf = [] ∧ (closeRead c s).2.inbufoff = 0 ∧
+      ((QuicStream.read c' (closeRead c s).2 n).2.2 = .errClosed ∨
+       (QuicStream.read c' (closeRead c s).2 n).2.2 = .errReset) := by
+  have hshape : (closeRead c s).2.inbuf = [] ∧ (closeRead c s).2.inbufoff = 0 ∧
+      (closeRead c s).2.inclosed.isSet = true ∧ (closeRead c s).2.writeOnly = false := by
+    unfold closeRead
+    simp only [hw, Bool.false_eq_true, if_false]
+    refine ⟨trivial, trivial, ?_, trivial⟩
+    by_cases hc : (Rangeset.isrange s.inset 0 s.insize = true ∨ s.inresetcode ≠ -1)
+    · simp [hc, SV.isSet]
+    · cases hi : s.inclosed <;> simp [hc, hi, SV.set, SV.isSet]
+  obtain ⟨h1, h2, h3, h4⟩ := hshape
+  refine ⟨h1, h2, ?_⟩
+  generalize closeRead c s = r at *
+  have hcan : r.2.canRead = true := by unfold Stream.canRead; simp [h3]
+  unfold QuicStream.read
+  simp only [h4, h1, h2, hcan]
+  by_cases hr : r.2.inresetcode ≠ -1
+  · right; simp [hr]
+  · left; simp [hr, h3]
+
+/-- The lock-free path of `Read` is taken only while `inbuf` holds unread bytes, and then returns
+exactly those bytes; `inbuf` is only ever assigned from `Pipe.peek` of the stream's own pipe. -/
+theorem read_fast_path_bytes (c : Conn) (s : Stream) (n : Nat) (hw : s.writeOnly = false)
+    (hf : s.inbuf.length > s.inbufoff) :
+    (QuicStream.read c s n).2.2 = .data ((s.inbuf.drop s.inbufoff).take (min n (s.inbuf.length - s.inbufoff))) false := by
+  unfold QuicStream.read
+  simp [hw, hf]
+
 /-! ### send side bookkeeping -/
 
 /-- membership in a plain list of ranges (the acked set while it is being iterated) -/
